@@ -8,6 +8,7 @@ import (
 	"sort"
 	"strings"
 	"sync"
+	"sync/atomic"
 	"time"
 
 	"golang.org/x/tools/go/ssa"
@@ -414,6 +415,9 @@ func runJobs(jobs []solveJob, opt Options) {
 			defer wg.Done()
 			for j := range ch {
 				sr, q := solveOne(j.o, opt)
+				if !j.o.MustSat && sr.Status != "unsat" {
+					atomic.AddInt32(&failedSoFar, 1)
+				}
 				mu.Lock()
 				applyResult(j.res, j.o, sr, q)
 				mu.Unlock()
@@ -428,6 +432,9 @@ func runJobs(jobs []solveJob, opt Options) {
 }
 
 // ResolveAgain re-runs the obligations of undecided results with other options (longer timeout).
+// failedSoFar counts obligations that were not discharged in this process (see solveOne).
+var failedSoFar int32
+
 func ResolveAgain(rs []*OblResult, opt Options) {
 	var jobs []solveJob
 	for _, r := range rs {
@@ -478,6 +485,11 @@ func solveOne(o *Obligation, opt Options) (SolverResult, *Query) {
 			if os.Getenv("GOVC_NOSINE") != "" {
 				plan = []attempt{{false, 0, 1}}
 			}
+		}
+		if atomic.LoadInt32(&failedSoFar) >= 6 && len(plan) > 4 {
+			// the tree is already known to violate obligations: the remaining ones get the cheaper attempts only
+			// (a failure costs the whole plan; the report lists them all either way)
+			plan = plan[:4]
 		}
 		for _, at := range plan {
 			tb := time.Now()
